@@ -144,3 +144,11 @@ func WithProcessEntropy(rd io.Reader, f func()) {
 	defer func() { crand.Reader = old }()
 	f()
 }
+
+// SetProcessEntropy replaces the process-wide entropy source until the
+// returned function is called.
+func SetProcessEntropy(rd io.Reader) (restore func()) {
+	old := crand.Reader
+	crand.Reader = rd
+	return func() { crand.Reader = old }
+}
